@@ -510,9 +510,9 @@ int main(int argc, char **argv) {
                 else snprintf(key, sizeof key, "read-mismatch:%s:%s", mname(t->mode[k]), prod < 0 ? "initial-value" : T[prod].rank == t->rank ? "producer-same-rank" : "producer-other-rank");
                 /* which earlier value is it? */
                 int stale = -2; for (int j = 0; j < i && stale == -2; j++) for (int q = 0; q < T[j].np; q++) if (T[j].tile[q] == t->tile[k] && expw[j][q] == obs[i][k]) { stale = j; break; }
-                vf_violation(key, "task %d (rank %d) param %d tile %d mode %s read %lld, sequential execution gives %lld (written by task %d); observed value %s%d",
-                             i, t->rank, k, t->tile[k], mname(t->mode[k]), (long long)obs[i][k], (long long)expr[i][k], prod,
-                             stale >= 0 ? "is the older version written by task " : "matches no version of this tile ", stale);
+                char stl[64]; if (stale >= 0) snprintf(stl, sizeof stl, "is the older version written by task %d", stale); else snprintf(stl, sizeof stl, "matches no earlier version of this tile");
+                vf_violation(key, "task %d (rank %d) param %d tile %d mode %s read %lld, sequential execution gives %lld (written by task %d); observed value %s",
+                             i, t->rank, k, t->tile[k], mname(t->mode[k]), (long long)obs[i][k], (long long)expr[i][k], prod, stl);
             }
         }
     }
